@@ -29,6 +29,12 @@ type EncOpts struct {
 	// uses a far pointer whenever the target's segment has room for the
 	// landing pad, even for targets in the pointer's own segment.
 	ForceFar bool
+
+	// DirtyPadding fills the alignment padding after a list of sub-word
+	// elements (the bytes between the end of the list content and the next
+	// word boundary) with non-zero bytes, as a producer that does not zero
+	// its buffers would.  Readers must ignore those bytes.
+	DirtyPadding bool
 }
 
 // Encode lays the tree rooted at v out into segments; the root pointer is word
@@ -240,6 +246,14 @@ func (e *encoder) pointer(pseg, poff int, v *Value) {
 			seg, off := e.alloc(words, pseg)
 			e.link(pseg, poff, seg, off, desc)
 			copy(e.segs[seg][off*8:], v.Bytes)
+			if e.o.DirtyPadding {
+				for i := off*8 + len(v.Bytes); i < (off+words)*8; i++ {
+					e.segs[seg][i] = byte(0xa5 + i)
+					if e.segs[seg][i] == 0 {
+						e.segs[seg][i] = 0x5a
+					}
+				}
+			}
 
 		case v.Elem == EPtr:
 			desc := mkListPtr(0, EPtr, v.Count)
